@@ -12,6 +12,38 @@ func init() { register("C19", rulesC19, nil) }
 
 // idExactnessRule is shared by R-C19-1 and R-C02-6.
 func idExactnessRule(c *Ctx) {
+	// representation invariant of ID: the dynamic value is a string or an int64 (or absent). Ids are map keys: the id of
+	// an outgoing call is an int64, and a response id of any other dynamic type (a float64 for "7.0") would never match it.
+	idT := c.P.LookupType(pJ, "ID")
+	c.Need(idT != nil, "jsonrpc2.ID")
+	nLit := 0
+	for _, rel := range []string{pJ, pM, "jsonrpc"} {
+		if c.P.Pkg(rel) == nil {
+			continue
+		}
+		for _, f := range c.funcsWithLits(rel) {
+			inspectNoLit(f.Body, func(n ast.Node) {
+				cl, ok := n.(*ast.CompositeLit)
+				if !ok || namedOf(f.TypeOf(cl)) != idT {
+					return
+				}
+				for _, e := range cl.Elts {
+					v := e
+					if kv, isKV := e.(*ast.KeyValueExpr); isKV {
+						v = kv.Value
+					}
+					nLit++
+					t := f.TypeOf(v)
+					okT := false
+					if b, isB := t.Underlying().(*types.Basic); isB && (b.Kind() == types.String || b.Kind() == types.Int64 || b.Kind() == types.UntypedString) {
+						okT = true
+					}
+					c.Check(okT, "ID-representation:"+f.Name(), f, cl, "an ID is built only from a string or an int64 (found %s)", types.TypeString(t, nil))
+				}
+			})
+		}
+	}
+	c.Pin("ID literals with a value", nLit, 2)
 	wd := c.P.LookupType(pJ, "wireDecode")
 	c.Need(wd != nil, "jsonrpc2.wireDecode")
 	idF := c.Field(pJ, "wireDecode", "ID")
